@@ -263,6 +263,12 @@ func genHist(profile string, n int, r *Rng, emit func(Case)) {
 			for i := range rep {
 				rep[i] = r.Intn(10)
 			}
+			if r.Intn(6) == 0 {
+				// a repeating block of zeros only: the digits still go on for ever
+				for i := range rep {
+					rep[i] = 0
+				}
+			}
 			g.length = -1
 		default:
 			rep = randDigits(r, r.Range(1, 9))
